@@ -122,7 +122,7 @@ var (
 	testBinErr  error
 )
 
-const testBin = "/verif/bin/harness.test"
+var testBin = envOr("SYMGO_TESTBIN", "/verif/bin/harness.test")
 
 func buildTestBinary() error {
 	testBinOnce.Do(func() {
@@ -217,7 +217,7 @@ func cmdRun(args []string) int {
 		fatal(2, "unknown property %q", *propID)
 	}
 	t0 := time.Now()
-	evPath := "/verif/evidence/" + spec.ID + ".json"
+	evPath := envOr("SYMGO_EVIDENCE_DIR", "/verif/evidence") + "/" + spec.ID + ".json"
 	os.Remove(evPath)
 
 	p, err := loadProgram()
@@ -451,7 +451,7 @@ func cmdRun(args []string) int {
 		}
 	}
 	// replay: known findings once each (must still reproduce to be announced), fresh ones all (cap)
-	replayDir := "/verif/replays"
+	replayDir := envOr("SYMGO_REPLAY_DIR", "/verif/replays")
 	validated := 0
 	exit := 0
 	var report []string
@@ -606,7 +606,7 @@ func cmdRun(args []string) int {
 	}
 	if paths > 0 {
 		b, _ := json.MarshalIndent(ev, "", " ")
-		os.MkdirAll("/verif/evidence", 0o755)
+		os.MkdirAll(envOr("SYMGO_EVIDENCE_DIR", "/verif/evidence"), 0o755)
 		os.WriteFile(evPath, b, 0o644)
 	}
 
@@ -627,7 +627,7 @@ var (
 	raceBinErr  error
 )
 
-const raceBin = "/verif/bin/harness.race.test"
+var raceBin = envOr("SYMGO_TESTBIN", "/verif/bin/harness.test") + ".race"
 
 func buildRaceBinary() error {
 	raceBinOnce.Do(func() {
@@ -693,7 +693,7 @@ func firstN(s []string, n int) []string {
 func repoHash() string {
 	h := sha256.New()
 	var files []string
-	filepath.Walk("/repo", func(p string, info os.FileInfo, err error) error {
+	filepath.Walk(repoDir, func(p string, info os.FileInfo, err error) error {
 		if err != nil {
 			return nil
 		}
